@@ -25,7 +25,7 @@ def floors(tier):
     k = 1 if tier == "quick" else 8
     return {"classifications": 300 * k, "classified_paged": 100 * k, "classified_plain": 100 * k, "histories": 500 * k,
             "pages_served": 1200 * k, "items_yielded": 1500 * k, "empty_intermediate_pages": 50 * k, "client:aio": 150 * k,
-            "client:rest": 100 * k, "map_histories": 10 * k}
+            "client:rest": 100 * k, "map_histories": 10 * k, "retry_forwarded_probes": 40 * k}
 
 
 def plan(seed, tier):
@@ -108,7 +108,9 @@ def run_case(case):
                     rdm.fill(rng, y, max_depth=1)
                     pages, npages = [y], 1
                 timeout = rng.choice([None, 30.0, 75.0])
-                calls.append({**base, "kind": kind, "request": rdm.b64(x.SerializeToString()),
+                # the caller's retry= must reach the fetch of every page: one UNAVAILABLE is injected before a later page
+                fault = rng.randint(1, npages - 1) if (field and kind != "rest" and npages >= 2 and rng.random() < 0.35) else None
+                calls.append({**base, "kind": kind, "retry_fault_page": fault, "request": rdm.b64(x.SerializeToString()),
                               "pages": [rdm.b64(y.SerializeToString()) for y in pages],
                               "pages_json": [json_format.MessageToJson(y) for y in pages], "npages": npages,
                               "mode": rng.choice(["items", "pages"]), "timeout": timeout,
@@ -178,6 +180,9 @@ def judge(model, call, r, bump):
         v.append({"clause": clause, "detail": detail})
 
     bump("classifications")
+    if r.get("error") and call.get("retry_fault_page") is not None:
+        bad("retry-not-forwarded-to-later-page", {"fault_before_page": call["retry_fault_page"], "error": r["error"]})
+        return v
     if r.get("error"):
         bad("client-raised", r["error"])
         return v
@@ -208,6 +213,15 @@ def judge(model, call, r, bump):
     bump("items_yielded", len(exp_items))
     # requests
     reqs = r["requests"]
+    fp = call.get("retry_fault_page")
+    if fp is not None and fp < n:
+        bump("retry_forwarded_probes")
+        # the failed fetch and its retry are two identical requests for page fp
+        if len(reqs) == n + 1 and reqs[fp].get("request") == reqs[fp + 1].get("request"):
+            reqs = reqs[:fp] + reqs[fp + 1:]
+        else:
+            bad("retry-not-forwarded-to-later-page", {"fault_before_page": fp, "requests_seen": len(reqs), "pages": n})
+            return v
     if len(reqs) != n:
         bad("request-count", f"server saw {len(reqs)} requests for a history whose first empty token is on page {n}")
         return v
@@ -300,7 +314,20 @@ def in_runner(script):
         kw = {"metadata": [tuple(x) for x in call["metadata"]]}
         if call["timeout"] is not None:
             kw["timeout"] = call["timeout"]
+        if call.get("retry_fault_page") is not None:
+            from google.api_core import exceptions as core_exceptions
+            from google.api_core import retry as retries
+            from google.api_core import retry_async as retries_async
+            R = retries_async.AsyncRetry if call["kind"] == "aio" else retries.Retry
+            kw["retry"] = R(initial=0.001, maximum=0.002, multiplier=1.0, timeout=20.0,
+                            predicate=retries.if_exception_type(core_exceptions.ServiceUnavailable))
         return kw
+
+    def grpc_script(call):
+        reps = [{"payloads": [p]} for p in call["pages"]]
+        if call.get("retry_fault_page") is not None:
+            reps.insert(call["retry_fault_page"], {"code": "UNAVAILABLE"})
+        return reps
 
     def collect_grpc(call, mark):
         out = []
@@ -327,7 +354,7 @@ def in_runner(script):
         req = lib.mk(call["req_type"], rt.unb64(call["request"]))
         o = {}
         if call["kind"] == "grpc":
-            srv.script("/%s/%s" % (call["full_service"], call["rpc"]), [{"payloads": [p]} for p in call["pages"]])
+            srv.script("/%s/%s" % (call["full_service"], call["rpc"]), grpc_script(call))
             mark = srv.mark()
         else:
             http.script([{"status": 200, "body": pj} for pj in call["pages_json"]])
@@ -364,7 +391,7 @@ def in_runner(script):
             if svc not in ac:
                 ac[svc] = lib.aio_client(svc, srv.target)
             req = lib.mk(call["req_type"], rt.unb64(call["request"]))
-            srv.script("/%s/%s" % (call["full_service"], call["rpc"]), [{"payloads": [p]} for p in call["pages"]])
+            srv.script("/%s/%s" % (call["full_service"], call["rpc"]), grpc_script(call))
             mark = srv.mark()
             o = {}
             try:
